@@ -687,16 +687,23 @@ Example C15_fs_tree_runs :
 A C          1 CHF
 "%string) /\
   infer_cmd_fs is_letter is_digit tbd Z zlog Z.add Z.gtb one_field same w_flat [[116]] w_tie_target =
-  infer_cmd_fs is_letter is_digit tbd Z zlog Z.add Z.gtb one_field same w_tree [[97]] w_tie_target.
+  InferOut (runes_of_string "2020-01-02 ""a""
+A C          1 CHF
+"%string).
 Proof. split; [|split]; vm_compute; reflexivity. Qed.
 
 (* the hypotheses of C15_training_layout_irrelevant are satisfiable (and hold of these two) *)
+Definition sk_tree : LoaderM.fsys := Eval vm_compute in skeleton is_letter is_digit w_tree.
+Definition sk_flat : LoaderM.fsys := Eval vm_compute in skeleton is_letter is_digit w_flat.
 Example C15_fs_layout_hypotheses :
   exists vs1 vs2,
     visits (skeleton is_letter is_digit w_tree) [[97]] vs1 /\ visits (skeleton is_letter is_digit w_flat) [[116]] vs2 /\
     Permutation (trxs (training_sems is_letter is_digit w_tree vs1)) (trxs (training_sems is_letter is_digit w_flat vs2)).
 Proof.
-  exists [[[97]]; [[115]; [98]]], [[[116]]]. split; [|split].
+  exists [[[97]]; [[115]; [98]]], [[[116]]].
+  replace (skeleton is_letter is_digit w_tree) with sk_tree by (vm_compute; reflexivity).
+  replace (skeleton is_letter is_digit w_flat) with sk_flat by (vm_compute; reflexivity).
+  split; [|split].
   - eapply (visits_file _ [[97]] _ [[[[115]; [98]]]]); [vm_compute; reflexivity|].
     vm_compute. constructor; [|constructor].
     eapply (visits_file _ [[115]; [98]] _ []); [vm_compute; reflexivity|vm_compute; constructor].
